@@ -609,10 +609,10 @@ class Exec:
         self.stats.calls += 1
         name = fv.name
         if self.path_models:
-            pm = self.path_models.get(self.std.strip_generics(name))
+            pm = self.path_models.get(self.std.strip_all_generics(name))
             if pm is None and isinstance(fv.info, dict):
                 cn = canon((fv.info.get('resolved') or {}).get('cname'))
-                if cn: pm = self.path_models.get(self.std.strip_generics(cn))
+                if cn: pm = self.path_models.get(self.std.strip_all_generics(cn))
             if pm is not None:
                 r = pm(self, name, args)
                 if r is not NotImplemented:
@@ -1248,7 +1248,8 @@ def explore(ex, body, max_paths=100000, budget_s=None):
         except Infeasible:
             out = None
         work.extend(ex.pending)
-        if out is not None and not ex.eager:
+        if out is not None and (not ex.eager or ex.pc):
+            # assumptions added after the last branch point are not yet known to be consistent
             if not ex.check():
                 out = None
         if out is None:
